@@ -264,7 +264,18 @@ def _selftests(files, failures, workdir):
     if recorded:
       break
   if recorded is None:
-    raise fnspec.tlc.MachineryError("self-test: no accepted recorded value case to corrupt")
+    # every recorded value case was rejected (a badly broken tree): corrupt a well-formed synthetic case instead,
+    # so that the violations found are reported rather than masked by a machinery failure
+    call = lambda kind, step, n, mut: {"kind": kind, "step": step, "reply": "DATA", "w0": "#%d" % n,
+                                       "w1": "#%d" % (n + 1 if mut else n), "hasw": mut, "sync": True, "nested": 0,
+                                       "text": ""}
+    recorded = {"src": "synthetic", "id": "synthetic", "spec": "{}", "local_exc": "",
+                "calls": [call("apply_hostile", "addtable", 0, True), call("apply_hostile", "addrecord", 1, True),
+                          call("fetch_hostile", "fetch", 2, False), call("apply_hostile", "update", 2, True),
+                          call("apply_ext_hostile", "convert", 3, True), call("fetch_hostile", "fetch", 4, False),
+                          call("fetch_meta", "meta", 4, False), call("apply_hostile", "remove", 4, True)],
+                "rts": [{"where": "formula", "enc": "#1", "enc2": "#1", "dumps": True, "back": "#1", "odd": [],
+                         "oddstr": [], "depth": 0, "err": ""}]}
   copy = lambda: json.loads(json.dumps(recorded))
   c1 = copy()
   c1["calls"][1]["reply"] = "EXC"
@@ -326,7 +337,7 @@ def run(ctx):
     nshards, per = 8, 30
     coltypes = ["Any", COLTYPES[1 + ctx.seed % (len(COLTYPES) - 1)]]
   else:
-    nshards, per = 16, 700
+    nshards, per = 8, 1200
     coltypes = COLTYPES
   cat = _catalogue(ctx, coltypes)
   hyp = [{"hyp": ctx.seed * 1000 + j, "n": per} for j in range(nshards)]
